@@ -147,9 +147,33 @@ def oracle(tr, reply_timeout=None):
     return bad
 
 
+EAVES = busdiff.Policy(REQUESTED.rules + [("default", True, {"receive_type": "method_call", "eavesdrop": "true"}),
+                                         ("default", True, {"receive_type": "signal", "eavesdrop": "true"})])
+
+
+def eavesdropper_scripts():
+    """somebody who listens in on a call is not its addressee: a reply of his is as unrequested as anybody else's, and his leaving
+    costs the caller nothing"""
+    from ..bus import method_call, reply_msg, BUS, BUS_PATH
+    hello = lambda: method_call(1, BUS, BUS_PATH, BUS, "Hello").marshal()
+    add = lambda s, r: method_call(s, BUS, BUS_PATH, BUS, "AddMatch", "s", [r]).marshal()
+    call = lambda s, dest, mem="M": method_call(s, dest, "/a", "a.b", mem, "s", [b"x"]).marshal()
+    ret = lambda s, dest, rs, err=None: reply_msg(s, rs, dest, error=err).marshal()
+    base = [("connect", 0, 0, False), ("send", 0, hello())] + [x for c in (1, 2, 3) for x in (("connect", c, 0, False), ("send", c, hello()))]
+    out = []
+    for rule in (b"type='method_call',eavesdrop='true'", b"eavesdrop='true'"):
+        out.append(base + [("send", 3, add(2, rule)), ("send", 1, call(100, ":1.2")), ("send", 3, ret(3, ":1.1", 100)), ("send", 3, ret(4, ":1.1", 100, "a.E")),
+                           ("send", 2, ret(2, ":1.1", 100)), ("send", 1, call(101, ":1.2", "N")), ("send", 2, ret(3, ":1.1", 101)), ("close", 3),
+                           ("send", 1, call(102, ":1.2", "O")), ("close", 2)])
+    return out
+
+
 def run(ctx):
     check.lean_obligations(ctx, MODULE, THEOREMS)
     n = 60 if ctx.quick() else 1200
+    buscheck.run_histories(ctx, 0, 0, oracle, policy=EAVES, seed_salt=26, label="eavesdropper-scenarios", scripts=eavesdropper_scripts())
+    buscheck.run_histories(ctx, n // 2, 80, oracle, gen_kw={"weights": dict(W, addmatch=8), "max_conns": 4}, policy=EAVES, seed_salt=27,
+                           label="eavesdroppers")
     buscheck.run_histories(ctx, n, 90 if ctx.quick() else 150, oracle, gen_kw={"weights": W, "max_conns": 4},
                            policy=REQUESTED, label="requested-replies-only")
     buscheck.run_histories(ctx, n // 2, 80, oracle, gen_kw={"weights": W, "max_conns": 4}, policy=REQUESTED,
